@@ -137,6 +137,18 @@ Section Main.
     finished (run f fails e_of Continue done_on_exit (sched1 ++ sched2) (init jobs n)) = true.
   Proof. apply fair_schedule_finishes. right. reflexivity. Qed.
 
+  Lemma fair_blocks_done on_fail (jobs : list job) n (blocks : list (list nat)) :
+    (forall b, In b blocks -> In 0 b /\ forall k, k < n -> In (S k) b) ->
+    3 * length jobs + 3 <= length blocks ->
+    finished (run f fails e_of on_fail true (concat blocks) (init jobs n)) = true.
+  Proof. apply fair_blocks_finish. left. reflexivity. Qed.
+
+  Lemma fair_blocks_continue done_on_exit (jobs : list job) n (blocks : list (list nat)) :
+    (forall b, In b blocks -> In 0 b /\ forall k, k < n -> In (S k) b) ->
+    3 * length jobs + 3 <= length blocks ->
+    finished (run f fails e_of Continue done_on_exit (concat blocks) (init jobs n)) = true.
+  Proof. apply fair_blocks_finish. right. reflexivity. Qed.
+
 End Main.
 
 (** * Concrete instances (jobs are numbers) *)
